@@ -41,7 +41,11 @@ func exits(b *ast.BlockStmt) bool {
 	return false
 }
 
-func sitesOf(fn *ast.FuncDecl) []site {
+func sitesOf(fn *ast.FuncDecl) []site { return sitesOfCalls(fn, "") }
+
+// sitesOfCalls: with callee != "" the "sites" are the calls of that function (expression text of the
+// whole call) instead of index/slice expressions.
+func sitesOfCalls(fn *ast.FuncDecl, callee string) []site {
 	var out []site
 	var walkStmts func(list []ast.Stmt, guards []string)
 	var walkStmt func(s ast.Stmt, guards []string)
@@ -70,11 +74,19 @@ func sitesOf(fn *ast.FuncDecl) []site {
 			case *ast.FuncLit:
 				walkStmts(x.Body.List, append([]string{}, guards...))
 				return false
+			case *ast.CallExpr:
+				if callee != "" && exprString(x.Fun) == callee {
+					out = append(out, site{exprString(x), append([]string{}, guards...)})
+				}
 			case *ast.SliceExpr:
-				out = append(out, site{exprString(x), append([]string{}, guards...)})
+				if callee == "" {
+					out = append(out, site{exprString(x), append([]string{}, guards...)})
+				}
 			case *ast.IndexExpr:
 				// map lookups never panic; they are recognised by name below
-				out = append(out, site{exprString(x), append([]string{}, guards...)})
+				if callee == "" {
+					out = append(out, site{exprString(x), append([]string{}, guards...)})
+				}
 			}
 			return true
 		})
@@ -181,6 +193,8 @@ func writeSites() string {
 	const kdc = "cmd/rdpgw/kdcproxy/proxy.go"
 	b.WriteString(coqSites("SITES_kdcForward", sitesOf(findMethod(kdc, "KerberosProxy", "forward"))))
 	b.WriteString(coqSites("SITES_kdcAwaitReply", sitesOf(findFunc(kdc, "awaitReply"))))
+	// C05: which challenge is registered under which configuration test (main.go)
+	b.WriteString(coqSites("CHALLENGES_registered", sitesOfCalls(findFunc("cmd/rdpgw/main.go", "main"), "auth.Register")))
 	b.WriteString(coqSites("SITES_legacyReadPacket", sitesOf(findMethod("cmd/rdpgw/transport/legacy.go", "LegacyPKT", "ReadPacket"))))
 	return b.String()
 }
